@@ -156,6 +156,28 @@ impl<'de, 'a, R: Reader<'de> + 'a> MapAccess<'a, R> {
 //@end
 }
 
+//@extract file=src/serde/de.rs struct=VariantAccess
+//@subst /^struct VariantAccess/ => pub struct VariantAccess
+//@subst /(?m)^    de:/ => pub de:
+//@end
+impl<'de, 'a, R: Reader<'de> + 'a> VariantAccess<'a, R> {
+    #[verifier::prophetic]
+    pub open spec fn fut(&self) -> Deserializer<R> { mut_ref_future(self.de) }
+//@extract file=src/serde/de.rs impl="de::EnumAccess<'de> for VariantAccess<'a, R>" fn=variant_seed
+//@subst /Result<\(V::Value, Self\)>/ => Result<(V::Value, VariantAccess<'a, R>)>
+//@sig
+        requires self.de.parser.pinv(), seed.start_ok(self.de.parser.read.data(), self.de.parser.read.idx() as int),
+        // externally tagged enum `{"Variant": value}`: after the variant name (whatever the seed consumed) only
+        // whitespace and then the colon; the reader is left just after the colon for the variant's content
+        ensures res.is_ok() ==> res->Ok_0.1.de.parser.pinv()
+                && res->Ok_0.1.de.parser.read.idx() >= 1
+                && res->Ok_0.1.de.parser.read.data()[res->Ok_0.1.de.parser.read.idx() - 1] == 0x3a
+                && res->Ok_0.1.fut() == self.fut(),
+//@after /let val = tri!\(seed\.deserialize\(&mut \*self\.de\)\);/
+        proof { lemma_ws_end_bounds(self.de.parser.read.data(), self.de.parser.read.idx() as int); }
+//@end
+}
+
 impl<'de, R: Reader<'de>> Deserializer<R> {
 //@extract file=src/serde/de.rs impl="Deserializer<R>" fn=deserialize_rawnumber
 //@subst /V: de::Visitor<'de>/ => V: devisit::Visitor<'de>
